@@ -13,6 +13,11 @@ import (
 	"pgregory.net/rapid"
 )
 
+// SelfWord is the running program's own invocation name: TestMain sets
+// os.Args[0] to it, so that argument vectors can contain "the program's name"
+// as an ordinary word and stay pure data.
+const SelfWord = "selfprog"
+
 var signedKinds = map[Kind]bool{KInt: true, KInt8: true, KInt16: true, KInt32: true, KInt64: true}
 
 var (
@@ -125,7 +130,7 @@ var (
 	cmdPool        = []string{"add", "rm", "list", "ls", "co", "ad", "remove", "a", "commit", "é"}
 	nsPool         = []string{"a", "ns", "a.b", "db", "x-y"}
 	stringPool     = []string{"", "x", "hello world", "a=b", "=lead", "-dash", "--dd", "é中", "k:v", "\"q\"", "\"unterminated", " lead", "trail ", "a,b", "--", "-", "---x", "-5", "0", "véry long value with spaces and = signs", "\\back", "tab\tx", "new\nline",
-		"'", "''", "'quoted'", "snake_case_value", "dir/my_file", "trailing\\", "C:\\data\\", "UPPER", " ", "%d %s 100%", "true", "no-x", "007"}
+		"'", "''", "'quoted'", "snake_case_value", "dir/my_file", "trailing\\", "C:\\data\\", "UPPER", " ", "%d %s 100%", "true", "no-x", "007", "${HOME}/data", "$HOME", "${}", "${x}-${y}.tar.gz", "help"}
 )
 
 type declGen struct {
@@ -226,6 +231,9 @@ func genValidText(t *rapid.T, k Kind, base int) string {
 	case KBool:
 		return rapid.SampledFrom([]string{"true", "false", "1", "0", "T", "F"}).Draw(t, "bool")
 	case KFloat32, KFloat64:
+		if pct(t, "floatMidpoint", 8) {
+			return FloatMidpointText(t)
+		}
 		return rapid.SampledFrom([]string{"0", "1.5", "-2.25", "1e3", ".5", "-0", "3.4028235e38", "1e-45", "+1", "Inf", "-inf", "NaN", "0x1p-2", "123456789.125"}).Draw(t, "float")
 	case KDuration:
 		return rapid.SampledFrom([]string{"0", "1s", "-5m", "1h30m", "100ms", "1.5h", "2562047h", "1ns", "+3s"}).Draw(t, "dur")
@@ -1027,7 +1035,7 @@ func (g *argvGen) emitPlain() {
 		g.out = append(g.out, w)
 		return
 	}
-	g.out = append(g.out, rapid.SampledFrom([]string{"word", "w2", "add", "rm", "x", "", "-", "file.txt", "é", "a b", "3", "---x", "="}).Draw(t, "plainWord"))
+	g.out = append(g.out, rapid.SampledFrom([]string{"word", "w2", "add", "rm", "x", "", "-", "file.txt", "é", "a b", "3", "---x", "=", "help", SelfWord}).Draw(t, "plainWord"))
 }
 
 // nearCommandWord draws a word that is close to, but (in the current context)
@@ -1125,7 +1133,7 @@ func (g *argvGen) unknownShort() string {
 			cands = append(cands, o.Short, flipCase(o.Short))
 		}
 	}
-	cands = append(cands, "Z", "z", "ö", "9")
+	cands = append(cands, "Z", "z", "ö", "9", "?", "%", "H")
 	sortStrings(cands)
 	var ok []string
 	for _, c := range cands {
@@ -1311,5 +1319,39 @@ func sortStrings(s []string) {
 		for j := i; j > 0 && s[j] < s[j-1]; j-- {
 			s[j], s[j-1] = s[j-1], s[j]
 		}
+	}
+}
+
+// FloatMidpointText draws a decimal lying just beside the midpoint of two
+// neighbouring float32 values (where rounding once and rounding twice - first to
+// 64 bits, then to 32 - differ), or of two neighbouring float64 values.
+func FloatMidpointText(t *rapid.T) string {
+	zeros := strings.Repeat("0", rapid.IntRange(12, 24).Draw(t, "midZeros"))
+	nines := strings.Repeat("9", rapid.IntRange(12, 24).Draw(t, "midNines"))
+	sign := rapid.SampledFrom([]string{"", "", "-"}).Draw(t, "midSign")
+	switch rapid.IntRange(0, 3).Draw(t, "midForm") {
+	case 0: // float32 spacing 1 in [2^23, 2^24): midpoints n + 0.5
+		n := rapid.IntRange(1<<23, 1<<24-2).Draw(t, "midN")
+		if rapid.Bool().Draw(t, "above") {
+			return fmt.Sprintf("%s%d.5%s1", sign, n, zeros)
+		}
+		return fmt.Sprintf("%s%d.4%s", sign, n, nines)
+	case 1: // float32 spacing 2 in [2^24, 2^25): midpoints are the odd integers
+		n := rapid.IntRange(1<<23, 1<<24-2).Draw(t, "midN")*2 + 1
+		if rapid.Bool().Draw(t, "above") {
+			return fmt.Sprintf("%s%d.%s1", sign, n, zeros)
+		}
+		return fmt.Sprintf("%s%d.%s", sign, n-1, nines)
+	case 2: // float32 near 1: spacing 2^-23, midpoint 1 + 2^-24
+		if rapid.Bool().Draw(t, "above") {
+			return sign + "1.000000059604644775390625" + zeros + "1"
+		}
+		return sign + "1.00000005960464477539062" + "4" + nines
+	default: // float64 spacing 1 in [2^52, 2^53): midpoints n + 0.5
+		n := rapid.Int64Range(1<<52, 1<<53-2).Draw(t, "midN64")
+		if rapid.Bool().Draw(t, "above") {
+			return fmt.Sprintf("%s%d.5%s1", sign, n, zeros)
+		}
+		return fmt.Sprintf("%s%d.4%s", sign, n, nines)
 	}
 }
